@@ -235,6 +235,7 @@ PROPS = {
         harnesses=[
             dict(run="pkg/zzc20.VerifC20NoCrash", name="C20_single", quick=dict(requests=1, keylen=2, roles=1, ticks=1, iterfault=1, cache=2, warmup=3), thorough=dict(requests=1, keylen=3, roles=1, ticks=1, iterfault=1, cache=2, warmup=3), covers=["done"]),
             dict(run="pkg/zzc20.VerifC20NoCrash", name="C20_pairs", quick=dict(requests=2, keymenu=1, handlers=14, watchvariants=0), thorough=dict(requests=2, keylen=1, handlers=14, watchvariants=0), covers=["done"]),
+            dict(run="pkg/zzc20.VerifC20Concurrent", quick=dict(preempt=1), thorough=dict(preempt=2), covers=["done"], stress=20),
             # runs of other properties' harnesses at small bounds, only for the table of metric emissions
             # (their own assertions are decided under their own property)
             dict(run="pkg/server/service/revision.VerifC18Sync", name="C20_sites_sync", cover_only=True, validate=0),
@@ -259,7 +260,7 @@ PROPS = {
         bounds=dict(quick="every ordered pair of requests whose key is empty or an ordinary key (so that two emission sites of one metric — with the label sets of both the refused and the served shape — meet in one process), and one request through any of 15 handler groups of both APIs (including the lease and cluster handlers), arriving at a leader or at a follower with or without the etcd proxy, over the production stack (engine behind the storage metrics wrapper, optionally with one transient engine fault in a scan) on a node whose event cache (2 entries) has wrapped after 3 earlier writes, with keys/values/range ends of 0..2 arbitrary bytes (invalid UTF-8, bytes below the alphabet), symbolic 64-bit revisions and limits (zero, negative, far future), missing sub-messages, watches whose client goes away before or after the registration, etcd watch streams that carry a cancel or an unsupported request, whose connection breaks after 0..1 responses, with a write under the watched key while they are open; the periodic compaction loop ticking once; real prometheus wrapper over a model of client_golang's panic rules; then a new watch, a create and a get must work and the watch must receive the create. "
                           "Metric table: every metric emission executed by the code under test in these runs and in small runs of eight other harnesses (revision syncer, /status handler, etcd watch mapping, election, repair loop, compaction with a failing delete, slow subscriber, revision gauge) is recorded with call site, kind, metric name and label names, and compared with the list of all Emit call sites taken from the SSA of the current source (98 sites): one metric name = one kind and one set of label names over all sites (a conflict is replayed through the real prometheus client), and every call site outside the declared exceptions must have been executed",
                     thorough="pairs with keys of 0..1 bytes; single requests with keys of 0..3 bytes"),
-        outside="protobuf/gRPC decoding and the gRPC interceptors' own metrics; resource exhaustion; more than 2 requests per process; the emission sites listed as exceptions in the evidence (metric_emissions.uncovered, each with its reason); label *values* other than those the requests produce",
+        outside="protobuf/gRPC decoding and the gRPC interceptors' own metrics; resource exhaustion; more than 2 requests per process, concurrent requests other than the first two of a node (same handler, <= 1 scheduling delay); the emission sites listed as exceptions in the evidence (metric_emissions.uncovered, each with its reason); label *values* other than those the requests produce",
     ),
     "C11": dict(
         harnesses=[
